@@ -25,7 +25,8 @@ type Loc struct {
 	arr  string
 	es   Sort // sort of the value stored at the root location
 	ref  string
-	idx  string
+	idx  string // elem: index relative to off
+	off  string // elem: offset of the slice view in the backing array ("0" for arrays)
 	path []pathStep
 	T    types.Type // type of the content
 }
@@ -66,9 +67,52 @@ func (g *Gen) fieldLoc(ref string, structT types.Type, field int) *Loc {
 	return &Loc{kind: "field", arr: arr, es: es, ref: ref, T: u.Field(field).Type()}
 }
 
-func (g *Gen) elemLoc(base, absIdx string, elem types.Type) *Loc {
+func (g *Gen) elemLoc(base, off, relIdx string, elem types.Type) *Loc {
 	arr, es := g.elemsArr(elem)
-	return &Loc{kind: "elem", arr: arr, es: es, ref: base, idx: absIdx, T: elem}
+	return &Loc{kind: "elem", arr: arr, es: es, ref: base, off: off, idx: relIdx, T: elem}
+}
+
+// shiftFn: view of a backing array starting at an offset: shift(a, o)[j] = a[o + j]. Reads of
+// slice elements go through it so that quantifier triggers carry the bare index.
+func (g *Gen) shiftFn(es Sort) string {
+	name := quote("shift:" + es)
+	if !g.declared[name] {
+		g.declFun(name, []Sort{es, "Int"}, es)
+		g.axioms = append(g.axioms, fmt.Sprintf("(forall ((a!s %s) (o!s Int) (j!s Int)) (! (= (select (%s a!s o!s) j!s) (select a!s (+ o!s j!s))) :pattern ((select (%s a!s o!s) j!s))))", es, name, name))
+	}
+	return name
+}
+
+// resliceLemma relates the view at offset off+lo to the view at offset off (a consequence of the
+// shift axiom, stated with a trigger on the new view so that facts about the old view apply).
+func (g *Gen) resliceLemma(elem types.Type, off, lo string) {
+	if lo == "0" || off == "" {
+		return
+	}
+	_, es := g.elemsArr(elem)
+	sh := g.shiftFn(es)
+	newOff := sAdd(off, lo)
+	lhs := sel(app(sh, "a!r", newOff), "j!r")
+	var rhs string
+	if off == "0" {
+		rhs = sel("a!r", sAdd(lo, "j!r"))
+	} else {
+		rhs = sel(app(sh, "a!r", off), sAdd(lo, "j!r"))
+	}
+	key := "reslice:" + es + ":" + off + ":" + lo
+	if g.axiomDone[key] {
+		return
+	}
+	g.axiomDone[key] = true
+	g.axiomLog = append(g.axiomLog, key)
+	g.assert(fmt.Sprintf("(forall ((a!r %s) (j!r Int)) (! (= %s %s) :pattern (%s)))", es, lhs, rhs, lhs))
+}
+
+func (g *Gen) viewRead(inner string, es Sort, off, idx string) string {
+	if off == "0" {
+		return sel(inner, idx)
+	}
+	return sel(app(g.shiftFn(es), inner, off), idx)
 }
 
 func (g *Gen) globalLoc(name string, t types.Type) *Loc {
@@ -88,7 +132,7 @@ func (g *Gen) rootRead(st *State, l *Loc) string {
 	a := g.arr(st, l.arr, l.es)
 	v := sel(a, l.ref)
 	if l.kind == "elem" {
-		v = sel(v, l.idx)
+		v = g.viewRead(v, l.es, l.off, l.idx)
 	}
 	return v
 }
@@ -127,7 +171,19 @@ func (g *Gen) store(st *State, l *Loc, val string) {
 	}
 	if l.kind == "elem" {
 		inner := sel(a, l.ref)
-		g.setArr(st, l.arr, l.es, sto(a, l.ref, sto(inner, l.idx, nv)))
+		newInner := sto(inner, sAdd(l.off, l.idx), nv)
+		if l.off != "0" {
+			// store-through-view lemma: keeps facts stated over the view usable after the store
+			oi := g.freshConst("inner", l.es)
+			ni := g.freshConst("inner", l.es)
+			g.assert(sEq(oi, inner))
+			g.assert(sEq(ni, newInner))
+			sh := g.shiftFn(l.es)
+			lhs := sel(app(sh, ni, l.off), "j!v")
+			g.assert(fmt.Sprintf("(forall ((j!v Int)) (! (= %s (ite (= j!v %s) %s %s)) :pattern (%s)))", lhs, l.idx, nv, sel(app(sh, oi, l.off), "j!v"), lhs))
+			newInner = ni
+		}
+		g.setArr(st, l.arr, l.es, sto(a, l.ref, newInner))
 		return
 	}
 	g.setArr(st, l.arr, l.es, sto(a, l.ref, nv))
@@ -167,7 +223,7 @@ func (g *Gen) wfFacts(st *State, v T) string {
 // elemAt: element j (relative index) of slice value s.
 func (g *Gen) sliceElem(st *State, s T, j string) T {
 	elem := s.GT.Underlying().(*types.Slice).Elem()
-	l := g.elemLoc(slBase(s.S), sAdd(slOff(s.S), j), elem)
+	l := g.elemLoc(slBase(s.S), slOff(s.S), j, elem)
 	return g.load(st, l)
 }
 
